@@ -629,7 +629,10 @@ def gen_api(r, k):
         for e in ids:
             cmds.append("enew %s" % e)
         groups = []
+        pairs = []
         pool = []
+        peer = "ap%d" % ci
+        cmds.append("dnew %s %s" % (peer, zs(2 ** 40)))
         for bi in range(r.choice([1, 2, 3])):
             if r.random() < 0.3:
                 v = r.choice([0, 64, 100, 4096])
@@ -678,6 +681,14 @@ def gen_api(r, k):
                     tags.append("iterator")
                 cmds.append("eencf %s %d %s %s" % (e, 1 if huff else 0, cont, " ".join(toks)))
                 line_ids.append(len(cmds) - 1)
+                if j == 0:
+                    # the peer decoder of the reference encoder consumes the block (text mode: the API fields are text)
+                    canon = list(fields)
+                    if use_dict:
+                        canon = [f for f in fields if f[0].startswith(b":")] + [f for f in fields if not f[0].startswith(b":")]
+                    cmds.append("pipe %s %s %d" % (e, peer, r.randrange(2)))
+                    pairs.append({"enc": len(cmds) - 2, "pipe": len(cmds) - 1,
+                                  "fields": [[hx(n), hx(v), int(s)] for n, v, s in canon]})
             groups.append(line_ids)
         # decoder modes: twin decoders, one raw one text, same blocks (valid text and not)
         d1, d2 = "ar%d" % ci, "at%d" % ci
@@ -689,7 +700,8 @@ def gen_api(r, k):
             cmds.append("ddec %s 1 %s" % (d1, hx(blk)))
             cmds.append("ddec %s 0 %s" % (d2, hx(blk)))
             twins.append((len(cmds) - 2, len(cmds) - 1))
-        cases.append({"family": "api", "cmds": cmds, "meta": {"groups": groups, "twins": twins}, "tags": sorted(set(tags))})
+        cases.append({"family": "api", "cmds": cmds, "meta": {"groups": groups, "twins": twins, "pairs": pairs},
+                      "tags": sorted(set(tags))})
     return cases
 
 
